@@ -70,43 +70,19 @@ fn sorted(v: &[String]) -> Vec<String> {
     v
 }
 
-pub fn test_case(case: &TrainCase) -> TestResult {
-    let cfg = &case.cfg;
-    let has_wb = case.corpus.iter().any(|r| r.labels.contains(&WB));
-    let has_nb = case.corpus.iter().any(|r| r.labels.contains(&NB));
-    if !(has_wb && has_nb) {
-        return Ok(Info::new(false).class(true, "skipped:single-class-corpus"));
-    }
-    let sentences: Vec<Sentence<'static, 'static>> =
-        case.corpus.iter().map(|r| r.to_sentence()).collect::<Result<_, _>>()?;
-    let tag_dict: Vec<Sentence<'static, 'static>> =
-        case.tag_dict.iter().map(|r| r.to_sentence()).collect::<Result<_, _>>()?;
-    let mut trainer = match Trainer::new(
-        cfg.charw, cfg.charn, cfg.typew, cfg.typen, cfg.dict.clone(), cfg.dictn, &tag_dict,
-    ) {
-        Ok(t) => t,
-        Err(_) => return Ok(Info::new(false).class(true, "skipped:trainer-rejected-configuration")),
-    };
-    for s in &sentences {
-        trainer.add_example(s);
-    }
-    let _ = verif_hooks::take_train_record();
-    let model = match util::train_deterministic(|| trainer.train(0.01, 1.0, train::solver_of(cfg.solver))) {
-        Ok(m) => m,
-        Err(_) => return Ok(Info::new(false).class(true, "skipped:train-returned-error")),
-    };
-    let rec = verif_hooks::take_train_record();
-    let spec = ModelSpec::from_model(&model)?;
-    let (corpus, dict) = observe_corpus(case);
-
-    // ---- candidate lists
+/// Clause (1): the model lists per token and category exactly the distinct tags observed.
+fn check_candidate_lists(
+    spec: &ModelSpec,
+    corpus: &BTreeMap<String, Seen>,
+    dict: &BTreeMap<String, Seen>,
+) -> Result<BTreeMap<String, Seen>, vcommon::engine::Fail> {
     let mut expected: BTreeMap<String, Seen> = BTreeMap::new();
-    for (tok, seen) in &corpus {
+    for (tok, seen) in corpus {
         if seen.any_present {
             expected.insert(tok.clone(), seen.clone());
         }
     }
-    for (tok, seen) in &dict {
+    for (tok, seen) in dict {
         // "or only in the tag dictionary": tokens that also occur in tagged corpus sentences
         // (even without any present tag there) are left to the corpus
         if seen.any_present && !corpus.contains_key(tok) {
@@ -167,6 +143,40 @@ pub fn test_case(case: &TrainCase) -> TestResult {
     for tok in expected.keys() {
         ensure!(tokens_seen.contains(tok), "token {tok:?} was seen with tags but has no tag model");
     }
+
+    Ok(expected)
+}
+
+pub fn test_case(case: &TrainCase) -> TestResult {
+    let cfg = &case.cfg;
+    let has_wb = case.corpus.iter().any(|r| r.labels.contains(&WB));
+    let has_nb = case.corpus.iter().any(|r| r.labels.contains(&NB));
+    if !(has_wb && has_nb) {
+        return Ok(Info::new(false).class(true, "skipped:single-class-corpus"));
+    }
+    let sentences: Vec<Sentence<'static, 'static>> =
+        case.corpus.iter().map(|r| r.to_sentence()).collect::<Result<_, _>>()?;
+    let tag_dict: Vec<Sentence<'static, 'static>> =
+        case.tag_dict.iter().map(|r| r.to_sentence()).collect::<Result<_, _>>()?;
+    let mut trainer = match Trainer::new(
+        cfg.charw, cfg.charn, cfg.typew, cfg.typen, cfg.dict.clone(), cfg.dictn, &tag_dict,
+    ) {
+        Ok(t) => t,
+        Err(_) => return Ok(Info::new(false).class(true, "skipped:trainer-rejected-configuration")),
+    };
+    for s in &sentences {
+        trainer.add_example(s);
+    }
+    let _ = verif_hooks::take_train_record();
+    let model = match util::train_deterministic(|| trainer.train(0.01, 1.0, train::solver_of(cfg.solver))) {
+        Ok(m) => m,
+        Err(_) => return Ok(Info::new(false).class(true, "skipped:train-returned-error")),
+    };
+    let rec = verif_hooks::take_train_record();
+    let spec = ModelSpec::from_model(&model)?;
+    let (corpus, dict) = observe_corpus(case);
+
+    let expected = check_candidate_lists(&spec, &corpus, &dict)?;
 
     // ---- recorded classifiers by (token, category)
     struct Clf {
@@ -317,9 +327,123 @@ pub fn test_case(case: &TrainCase) -> TestResult {
         .class(cfg.charw == 0 || cfg.typew == 0, "window=0"))
 }
 
+/// Clause (1) through the shipped `train` program: the corpus and the tag dictionary are written
+/// to files (LF or CR LF line ends, with and without --no-norm) and the candidate lists of the
+/// model file it writes are compared with the same reference reading of the corpus.
+pub fn test_tool(case: &TrainCase) -> TestResult {
+    use vaporetto_rules::string_filters::KyteaFullwidthFilter;
+    use vaporetto_rules::StringFilter;
+    use vcommon::oracle::{RefSentence, UNK};
+    let cfg = &case.cfg;
+    let line_break_in = |r: &RefSentence| {
+        r.chars.iter().any(|&c| c == '\n' || c == '\r')
+            || r.tags.iter().flatten().flatten().any(|t| t.contains('\n') || t.contains('\r'))
+    };
+    if case.corpus.iter().chain(&case.tag_dict).any(line_break_in) {
+        return Ok(Info::new(false).class(true, "skipped:line-break-inside-a-sentence(not representable in a corpus file)"));
+    }
+    let crlf = cfg.solver % 2 == 0;
+    let no_norm = cfg.dictn % 2 == 0;
+    let eol = if crlf { "\r\n" } else { "\n" };
+    let dir = util::Scratch::new("c12");
+    let (ftok, fpart, fdict, fmodel) = (dir.path("c.tok"), dir.path("c.part"), dir.path("d.txt"), dir.path("m.zst"));
+    let (mut tok, mut part, mut dict) = (String::new(), String::new(), String::new());
+    for r in &case.corpus {
+        if r.labels.contains(&UNK) {
+            part.push_str(&oracle::ref_write_partial(r));
+            part.push_str(eol);
+        } else {
+            tok.push_str(&oracle::ref_write_tokenized(r));
+            tok.push_str(eol);
+        }
+    }
+    for r in &case.tag_dict {
+        dict.push_str(&oracle::ref_write_tokenized(r));
+        dict.push_str(eol);
+    }
+    if tok.is_empty() && part.is_empty() {
+        return Ok(Info::new(false).class(true, "skipped:empty-corpus"));
+    }
+    let mut args: Vec<String> = vec![];
+    for (flag, path, content) in [("--tok", &ftok, &tok), ("--part", &fpart, &part), ("--dict", &fdict, &dict)] {
+        if !content.is_empty() {
+            std::fs::write(path, content).map_err(|e| e.to_string())?;
+            args.push(flag.into());
+            args.push(path.to_string_lossy().to_string());
+        }
+    }
+    for (flag, v) in [("--charw", cfg.charw), ("--charn", cfg.charn), ("--typew", cfg.typew), ("--typen", cfg.typen), ("--dictn", cfg.dictn.max(1)), ("--solver", cfg.solver % 8)] {
+        args.push(flag.into());
+        args.push(v.to_string());
+    }
+    if no_norm {
+        args.push("--no-norm".into());
+    }
+    args.push("--model".into());
+    args.push(fmodel.to_string_lossy().to_string());
+    let r = util::run_tool("train", &args, b"")?;
+    ensure!(!r.stderr.contains("panicked"), "train crashed: {}", r.stderr.lines().find(|l| l.contains("panicked")).unwrap_or(""));
+    if r.code != Some(0) {
+        return Ok(Info::new(false).class(true, "skipped:train-exits-with-error"));
+    }
+    let raw = util::zstd_decode(&std::fs::read(&fmodel).map_err(|e| format!("no model file: {e}"))?)?;
+    let (model, _) = vaporetto::Model::read_slice(&raw).map_err(|e| format!("model written by train: {e}"))?;
+    let spec = ModelSpec::from_model(&model)?;
+    // the reference reads the corpus the way the program is documented to: normalised unless
+    // --no-norm (the normaliser maps character to character), words of the --dict file are
+    // the tag dictionary
+    let norm = |r: &RefSentence| -> RefSentence {
+        let mut r = r.clone();
+        if !no_norm {
+            r.chars = KyteaFullwidthFilter.filter(&r.text()).chars().collect();
+        }
+        // a corpus line carries as many tag columns as its longest tag list: trailing absent
+        // tags are not written, so a sentence whose tags are all absent is an untagged line
+        // (the tokenized format writes the tags of a token's last character only; the partial
+        // annotation format those of every character)
+        let partial = r.labels.contains(&UNK);
+        let ends: std::collections::BTreeSet<usize> = oracle::ref_tokens(&r.labels).iter().map(|t| t.end - 1).collect();
+        r.n_tags = r
+            .tags
+            .iter()
+            .enumerate()
+            .filter(|(i, _)| partial || ends.contains(i))
+            .map(|(_, t)| t.iter().rposition(|x| x.is_some()).map_or(0, |p| p + 1))
+            .max()
+            .unwrap_or(0);
+        for t in r.tags.iter_mut() {
+            t.truncate(r.n_tags);
+        }
+        r
+    };
+    let seen_case = TrainCase {
+        cfg: cfg.clone(),
+        corpus: case.corpus.iter().map(norm).collect(),
+        tag_dict: case.tag_dict.iter().map(norm).collect(),
+        eval: vec![],
+    };
+    let (corpus, dictseen) = observe_corpus(&seen_case);
+    let expected = check_candidate_lists(&spec, &corpus, &dictseen).map_err(|e| {
+        vcommon::engine::Fail::from(format!("model written by train ({} line ends{}): {}", if crlf { "CR LF" } else { "LF" }, if no_norm { ", --no-norm" } else { "" }, e.msg))
+    })?;
+    Ok(Info::new(expected.values().any(|s| s.cands.iter().any(|c| c.len() >= 2)))
+        .class(crlf, "CRLF-corpus-files")
+        .class(no_norm, "--no-norm")
+        .class(!dict.is_empty(), "--dict")
+        .class(!part.is_empty(), "--part"))
+}
+
 pub fn run(rep: &mut Report) {
     liblinear::toggle_liblinear_stdout_output(false);
     let _guard = util::redirect_output("/verif/target/C12-train-output.log");
+    rep.run_enum(
+        "long-words",
+        "the long-token corpora of C11 (a token of 127 / 255 / 256 / 257 / 300 characters that is a \
+dictionary word and an ambiguous tagged token, buckets 1 / 4 / 255): same oracle",
+        false,
+        [127usize, 255, 256, 257, 300].into_iter().enumerate().flat_map(|(k, l)| [crate::checks::c11::long_word_case(l, k), crate::checks::c11::long_word_case(l, k + 1)]),
+        |c: &TrainCase| test_case(c).map(|mut i| { i.nontrivial = true; i }),
+    );
     let n = rep.n(15000, 750000);
     rep.run_prop(
         "tag-models",
@@ -340,6 +464,23 @@ features. Non-trivial = a token with >= 2 observed tags in one category and exac
             ]
         },
         test_case,
+    );
+    let n = rep.n(1500, 40000);
+    rep.run_prop(
+        "train-tool",
+        "the same generated corpora and tag dictionaries written to files with LF or CR LF line \
+ends and trained by the shipped train program (with and without --no-norm): the candidate lists \
+of the model file it writes equal the reference reading of the (normalised) corpus - clause (1). \
+Non-trivial = a token with >= 2 observed tags in a category.",
+        n,
+        || {
+            use proptest::prelude::*;
+            prop_oneof![
+                1 => train::train_case(TrainGenCfg { max_sentences: 6, max_len: 8, tame: false, tag_dict: true, tag_focus: false }),
+                3 => train::train_case(TrainGenCfg { max_sentences: 8, max_len: 8, tame: false, tag_dict: true, tag_focus: true }),
+            ]
+        },
+        test_tool,
     );
     rep.assume("a token that occurs in tagged corpus sentences without any present tag AND in the tag dictionary is left unspecified (the property speaks of tokens seen with tags, or only in the dictionary)");
 }
